@@ -1,50 +1,84 @@
-import Proofs.FrameOps
-/-! C01 — page set fidelity. Proved so far: inserting a page never moves, unflags or alters any existing
-    page block (heap order), returns a block that is flagged as a page afterwards, turns its crawled
-    mark on iff it was on or the submission asks for it, and reports "created" iff the block was not a
-    page before. That the returned block is *the* block of that LRU — so that nothing is duplicated —
-    is the search/insert agreement under construction in Proofs/Shape*. -/
+import Proofs.PageSet
+/-! C01 — page set fidelity, in full: for every history of write requests (without `clear`, which starts a
+    new index) on a fresh index with any constructor rules, over well-formed LRUs (each submitted byte
+    string cuts into at least one stem), with the rules re-supplied as the API requires (no request
+    aborts with KeyError):
+
+    * the pages of the final state are exactly the LRUs submitted as pages — directly, as link ends, as
+      crawl-batch sources and targets (`Op.pages`) — none lost, none invented (`C01_pages`);
+    * `pages_iter` lists exactly their flattened byte strings, each once (`C01_pagesIter`);
+    * a page is crawled only if some submission may mark it and is crawled if some submission must mark it
+      (`C01_crawled`; reading A-1 of DESIGN §8 for `add_pages(crawled=False)`);
+    * every write report counts exactly the distinct LRUs of the request that were not pages before
+      (`C01_report`).
+
+    Behind it: `Shape` (ghost tree represented, strict BST order on full stems, no duplicate block) is an
+    invariant of every request (`C01_shape_invariant`), insertion returns *the* block of the LRU
+    (Proofs/Insert), look-up finds it (Proofs/DescendSpec), the traversal meets every block once
+    (Proofs/Traverse). Webentity, prefix and rule edits leave the page set alone (they are `Keeps` steps). -/
 namespace Traph.Props
 open Traph State
 
-/-- no page is lost or altered: every block that was a page still is, with the same stem bytes and the
-    same parent pointer, after any page insertion -/
-theorem C01_monotone (s : State) (stems : LRU) (crawled : Bool) (h0 : 0 < s.trie.size) (hne : stems ≠ [])
+/-- the shape invariant holds in every reachable state -/
+theorem C01_shape_invariant (cfg : Config) (dflt : Rule) (rules : List (Bytes × Rule)) (ops : List Op)
+    (hop : ∀ op ∈ ops, ∀ d rs, op ≠ .clear d rs) :
+    ∃ t, Shape ((State.fresh cfg dflt rules []).1.run ops) t := shape_run cfg dflt rules ops hop
+
+/-- no page lost, none invented -/
+theorem C01_pages (cfg : Config) (dflt : Rule) (rules : List (Bytes × Rule)) (ops : List Op)
+    (hrules : ∀ ar ∈ rules, lruIter ar.1 ≠ [])
+    (hop : ∀ op ∈ ops, ∀ d rs, op ≠ .clear d rs) (hwf : ∀ op ∈ ops, OpWf op)
+    (hok : NoKeyErr (State.fresh cfg dflt rules []).1 ops) :
+    ∃ t, Shape ((State.fresh cfg dflt rules []).1.run ops) t ∧
+      ∀ p, IsPage ((State.fresh cfg dflt rules []).1.run ops) t p ↔ ∃ op ∈ ops, ∃ x ∈ op.pages, x.1 = p :=
+  Traph.C01_pages cfg dflt rules ops hrules hop hwf hok
+
+/-- the full page enumeration reports exactly the submitted LRUs, byte-identical, each once -/
+theorem C01_enumeration (cfg : Config) (dflt : Rule) (rules : List (Bytes × Rule)) (ops : List Op)
+    (hrules : ∀ ar ∈ rules, lruIter ar.1 ≠ [])
+    (hop : ∀ op ∈ ops, ∀ d rs, op ≠ .clear d rs) (hwf : ∀ op ∈ ops, OpWf op)
+    (hok : NoKeyErr (State.fresh cfg dflt rules []).1 ops) :
+    (∀ lru, (∃ c, (lru, c) ∈ ((State.fresh cfg dflt rules []).1.run ops).pagesIter) ↔
+        ∃ op ∈ ops, ∃ x ∈ op.pages, lru = x.1.flatten) ∧
+    ((((State.fresh cfg dflt rules []).1.run ops).pagesIter).map (·.1)).Nodup :=
+  C01_pagesIter cfg dflt rules ops hrules hop hwf hok
+
+/-- crawled marks: only if some submission may mark, and whenever some submission must mark -/
+theorem C01_crawled (cfg : Config) (dflt : Rule) (rules : List (Bytes × Rule)) (ops : List Op)
+    (hrules : ∀ ar ∈ rules, lruIter ar.1 ≠ [])
+    (hop : ∀ op ∈ ops, ∀ d rs, op ≠ .clear d rs) (hwf : ∀ op ∈ ops, OpWf op)
+    (hok : NoKeyErr (State.fresh cfg dflt rules []).1 ops) :
+    ∃ t, Shape ((State.fresh cfg dflt rules []).1.run ops) t ∧
+      ∀ p, (IsCrawled ((State.fresh cfg dflt rules []).1.run ops) t p →
+              ∃ op ∈ ops, ∃ x ∈ op.pages, x.1 = p ∧ x.2.2 = true) ∧
+           ((∃ op ∈ ops, ∃ x ∈ op.pages, x.1 = p ∧ x.2.1 = true) →
+              IsCrawled ((State.fresh cfg dflt rules []).1.run ops) t p) :=
+  Traph.C01_crawled cfg dflt rules ops hrules hop hwf hok
+
+open Classical in
+/-- every write report counts exactly the pages that were new -/
+theorem C01_report (cfg : Config) (dflt : Rule) (rules : List (Bytes × Rule)) (ops : List Op)
+    (hrules : ∀ ar ∈ rules, lruIter ar.1 ≠ [])
+    (hop : ∀ op ∈ ops, ∀ d rs, op ≠ .clear d rs) (hwf : ∀ op ∈ ops, OpWf op)
+    (hok : NoKeyErr (State.fresh cfg dflt rules []).1 ops)
+    (op : Op) (hop' : ∀ d rs, op ≠ .clear d rs) (hwf' : OpWf op) (r : Report)
+    (hr : (((State.fresh cfg dflt rules []).1.run ops).step op).2 = .report r) :
+    ∃ t, Shape ((State.fresh cfg dflt rules []).1.run ops) t ∧
+      r.pages = ((op.pages.map (·.1)).eraseDups.filter
+        (fun p => decide (¬ IsPage ((State.fresh cfg dflt rules []).1.run ops) t p))).length :=
+  C01_report_run cfg dflt rules ops hrules hop hwf hok op hop' hwf' r hr
+
+/-- re-submitting a known page changes nothing but possibly its crawled mark: the page set is the same
+    and the report counts 0 (one step of the above; stated on the trie insertion) -/
+theorem C01_resubmit (s : State) (stems : LRU) (crawled : Bool) (h0 : 0 < s.trie.size) (hne : stems ≠ [])
     (i : Nat) (c : Cell) (hc : s.trie[i]? = some c) (hp : c.flags.page = true) :
     ∃ c', (s.addPageTrie stems crawled).1.trie[i]? = some c' ∧ c'.flags.page = true ∧ c'.chunk = c.chunk ∧
       c'.parent = c.parent ∧ (c.flags.crawled = true → c'.flags.crawled = true) := by
   obtain ⟨c', hc', hle⟩ := (addPageTrie_le s stems crawled h0 hne).1.cells i c hc
   exact ⟨c', hc', hle.page hp, hle.chunk, hle.parent, hle.crawled⟩
 
-/-- the submitted LRU's block is a page afterwards; crawled is monotone (on iff it was on or this
-    submission marks it); "created" is reported iff it was not a page before -/
-theorem C01_inserted (s : State) (stems : LRU) (crawled : Bool) (h0 : 0 < s.trie.size) (hne : stems ≠ [])
-    (s1 : State) (n : Nat) (h : Hist) (ha : s.addLru stems false = (s1, n, h)) :
-    (s.addPageTrie stems crawled).2.1 = n ∧
-    ((s.addPageTrie stems crawled).1.cell n).flags.page = true ∧
-    ((s.addPageTrie stems crawled).1.cell n).flags.crawled = ((s1.cell n).flags.crawled || crawled) ∧
-    (s.addPageTrie stems crawled).2.2.created = !(s1.cell n).flags.page := by
-  have hlt : n < s1.trie.size := by
-    have := (addLru_le s stems false h0 hne).2; rw [ha] at this; exact this
-  have hcre : h.created = false := by
-    have := addLru_created s stems false; rw [ha] at this; exact this
-  unfold addPageTrie
-  rw [ha]
-  simp only
-  by_cases hpg : (s1.cell n).flags.page = true
-  · by_cases hcr : (crawled && !(s1.cell n).flags.crawled) = true
-    · rw [if_neg (by simp [hpg]), if_pos hcr]
-      simp only [Bool.and_eq_true, Bool.not_eq_true'] at hcr
-      refine ⟨rfl, ?_, ?_, by simp [hpg, hcre]⟩
-      · rw [cell_modCell, if_pos ⟨rfl, hlt⟩]; exact hpg
-      · rw [cell_modCell, if_pos ⟨rfl, hlt⟩]; simp [hcr.1]
-    · rw [if_neg (by simp [hpg]), if_neg hcr]
-      refine ⟨rfl, hpg, ?_, by simp [hpg, hcre]⟩
-      cases crawled <;> cases hx : (s1.cell n).flags.crawled <;> simp_all
-  · simp only [Bool.not_eq_true] at hpg
-    rw [if_pos (by simp [hpg])]
-    refine ⟨rfl, ?_, ?_, by simp [hpg]⟩
-    · rw [cell_modCell, if_pos ⟨rfl, hlt⟩]
-    · rw [cell_modCell, if_pos ⟨rfl, hlt⟩]
+/-- non-vacuity: a two-request history meeting every hypothesis -/
+example : OpWf (.addPage [97, 124, 98, 124] true) ∧ OpWf (.addLinks [([97, 124], [99, 124])]) := by
+  constructor <;> simp [OpWf, lruIter, lruIterGo, Layout.sep]
 
 end Traph.Props
